@@ -340,7 +340,15 @@ def _check(prop, cfg, tier, seed, scratch, t0):
         'normalisations': sorted({r for f in fun_rows for r in f['rules']}),
     }
     level = 'proof'
-    if n_obl == 0 or n_dis == 0:
+    if cfg.get('category') in ('exploration',):
+        # the property is claimed at a BOUNDED level: the record is that of the bounded runs; the discharged obligations are an extra
+        level = 'exploration'
+        cov['evaluations'] = sum(int(b.get('cases') or 0) for b in bounded_rows)
+        cov['distinct_nontrivial'] = sum(int(b.get('distinct_nontrivial') or 0) for b in bounded_rows)
+        cov['rule'] = ' || '.join('%s: %s (distinct/non-trivial as counted by the harness: %s)' % (b.get('name'), b.get('bound', ''), b.get('distinct_nontrivial')) for b in bounded_rows)
+        cov['samples'] = [{'standin': b.get('name'), 'result': b.get('result'), 'cases': b.get('cases'), 'engine': b.get('engine')} for b in bounded_rows] + samples
+        cov['exhaustive'] = False
+    elif n_obl == 0 or n_dis == 0:
         level = 'other'; cov['explanation'] = 'no obligation was discharged in this run (undecided)'
     ev = {'property_id': prop, 'tier': tier if tier in ('quick', 'thorough') else 'quick', 'seed': seed, 'level': level, 'coverage': cov,
           'assumptions': P.TRUSTED_COMMON + cfg.get('trusted', []), 'wall_s': round(wall, 2), 'violations': len(violations)}
